@@ -25,20 +25,35 @@ Definition same_map (a b : list (ref * root)) : bool :=
 Definition files_of (D : desc) (paths : list str) : option (list filed) :=
   fold_right (fun p acc => match find_file D p, acc with Some f, Some l => Some (f :: l) | _, _ => None end) (Some []) paths.
 
+(* APIFromImage visits the included files in the (random) order of protoregistry.RangeFiles. A
+   successful build does not depend on that order, but which failure is met first does: the observed
+   class must be the class of some order. *)
+Fixpoint insert_all {A} (x : A) (l : list A) : list (list A) :=
+  match l with
+  | [] => [[x]]
+  | y :: r => (x :: l) :: map (cons y) (insert_all x r)
+  end.
+Fixpoint perms {A} (l : list A) : list (list A) :=
+  match l with
+  | [] => [[]]
+  | x :: r => flat_map (insert_all x) (perms r)
+  end.
+
 Definition check_export (D : desc) (files : list str) (cls_export : N) (first : list (ref * root)) : bool :=
   match files_of D files with
   | None => false
   | Some fs =>
-      match reflect D fs with
-      | Ok st =>
-          (* what the round-trip theorem assumes of a reflected set, checked on every case *)
-          keys_distinct st && set_importable st && set_closed st &&
-          match export_set st with
-          | Ok l => N.eqb cls_export 0 && same_map l first
-          | other => N.eqb cls_export (cls other)
-          end
-      | other => N.eqb cls_export (cls other)
-      end
+      (match reflect D fs with
+       | Ok st =>
+           (* what the round-trip theorem assumes of a reflected set, checked on every case *)
+           keys_distinct st && set_importable st && set_closed st &&
+           match export_set st with
+           | Ok l => N.eqb cls_export 0 && same_map l first
+           | _ => false
+           end
+       | _ => false
+       end)
+      || (negb (N.eqb cls_export 0) && existsb (fun p => N.eqb cls_export (cls (reflect D p))) (perms fs))
   end.
 
 Definition exported (st : sset) : list (ref * root) :=
